@@ -243,14 +243,22 @@ class Run:
             self.net.remove_peer(subj)
             self.model.remove_peer(p, [a for a in addrs if a >= 0])
             self.trace.append("r")
-            self.check_removed([p], "remove_peer")
+            # quiet: the lookups that check_removed issues are themselves operations on the caches; a quiet removal is
+            # followed by whatever the history does next, and judged at the next observation
+            if len(op) > 3 and op[3]:
+                self.check_membership("remove_peer")
+            else:
+                self.check_removed([p], "remove_peer")
         elif kind == "remove_addr":
-            _, a = op
+            a = op[1]
             victims = self.model.owners(a)
             self.net.remove_by_address(A[a])
             self.model.remove_by_address(a)
             self.trace.append("r")
-            self.check_removed(victims, "remove_by_address")
+            if len(op) > 2 and op[2]:
+                self.check_membership("remove_by_address")
+            else:
+                self.check_removed(victims, "remove_by_address")
         elif kind == "observe":
             self.observe_checked(op[1])
             self.trace.append("q")
@@ -402,6 +410,13 @@ class Run:
                 self.fail("L3", "service", f"service {s}: verified advertisers {sorted(lo - got)} missing from {sorted(got)}")
             if not got <= hi:
                 self.fail("L3", "service", f"service {s}: {sorted(got - hi)} listed but never advertised it or not verified")
+            # the same answer as the other lookups: what is listed for a service lives where the public-key lookup says
+            for x in net.get_peers_for_service(SERVICES[s]):
+                v = net.get_verified_by_public_key_bin(x.public_key.key_to_bin())
+                if v is not None and v is not x and (dict(v.addresses) != dict(x.addresses) or v.address != x.address):
+                    self.fail("L3", "service:other_object",
+                              f"service {s} lists peer {self.kidx(x)} at {sorted(map(tuple, x.addresses.values()))}; the "
+                              f"public-key lookup knows it at {sorted(map(tuple, v.addresses.values()))}")
         # L4 walkable addresses
         owned = {a for a in range(len(A)) if owners_now[a]}
         got, n = obs1[("walk", None, 0)]
@@ -519,6 +534,30 @@ def _exhaustive_shard(ctx: Ctx, shard: int, nshards: int, depth: int) -> None:
     ctx.note("exhaustive_depth", depth)
 
 
+# a second, focused alphabet: one peer, one service, removals that are not followed by the oracle's own lookups
+FOCUS = [
+    ["add", 0, [0]], ["add", 0, [2]], ["services", 0, [0]], ["query", "service", 0], ["query", "walk", 0, 0],
+    ["remove_peer", 0, None, 1], ["remove_addr", 0, 1], ["add", 1, [0]],
+]
+
+
+def _focus_shard(ctx: Ctx, shard: int, nshards: int, depth: int) -> None:
+    n = len(FOCUS)
+    k = 0
+    for d in range(2, depth + 1):
+        for word in itertools.product(range(n), repeat=d):
+            if word[0] > 1 or any(word[i] == word[i + 1] for i in range(d - 1)):
+                continue
+            k += 1
+            if k % nshards != shard:
+                continue
+            try:
+                execute(ctx, EX_CONFIGS[0], [FOCUS[i] for i in word], final_order=k % 3)
+            except Violation as v:
+                ctx.violation(v)
+    ctx.note("focus_depth", depth)
+
+
 # ---- Hypothesis part ---------------------------------------------------------------------------------
 
 def _strategies():
@@ -540,7 +579,9 @@ def _strategies():
         st.tuples(st.just("services"), peer, st.lists(svc, min_size=1, max_size=2, unique=True)).map(list),
         st.tuples(st.just("remove_peer"), peer).map(list),
         st.tuples(st.just("remove_peer"), peer, addrs).map(list),
+        st.tuples(st.just("remove_peer"), peer, st.none() | addrs, st.just(1)).map(list),
         st.tuples(st.just("remove_addr"), addr).map(list),
+        st.tuples(st.just("remove_addr"), addr, st.just(1)).map(list),
         st.tuples(st.just("observe"), st.integers(0, 2)).map(list),
         q, q,
         st.just(["snapshot"]),
@@ -566,6 +607,7 @@ def run(ctx: Ctx) -> None:
     if not ctx.quick and ctx.tier == "thorough":
         depth = 6
     shard_run(ctx, _exhaustive_shard, extra=(depth,))
+    shard_run(ctx, _focus_shard, extra=(6 if ctx.quick else 7,))
     shard_run(ctx, _random_shard, extra=(1500 if ctx.quick else 20000,))
     ctx.note("alphabet", ALPHABET)
 
